@@ -166,6 +166,14 @@ def observe(pt):
             "name": pt.name, "description": pt.description,
             "initial": cp(pt.get_initial_tensor())}
     snap["raw"] = [cp(raw_mpo(pt, k)) for k in range(n)]
+    # what a caller who collects all tensors holds: the arrays as returned
+    # (not copied) - none of them may change when a later one is requested
+    held = [pt.get_mpo_tensor(k) for k in range(n)]
+    held_copy = [cp(pt.get_mpo_tensor(k)) for k in range(n)]
+    snap["held_changed"] = [
+        k for k in range(n) if held[k] is not None and (
+            np.shape(held[k]) != np.shape(held_copy[k])
+            or not np.array_equal(held[k], held_copy[k]))]
     snap["mpo"] = [cp(pt.get_mpo_tensor(k)) for k in range(n)]
     snap["mpo4"] = [cp(pt.get_mpo_tensor(k, transformed=False))
                     for k in range(n)]
@@ -250,6 +258,11 @@ def cmp_array(ctx, label, field, a, b, exact, mech=None, tol=None,
 
 def compare_attributes(ctx, ref, got, label):
     """Everything that does not depend on the gauge of the MPO bonds."""
+    if got.get("held_changed"):
+        ctx.violate("tensor:returned-array-reused",
+                    f"{label}: MPO tensors {got['held_changed']} handed out "
+                    f"by get_mpo_tensor changed when later tensors were "
+                    f"requested (a collected list of tensors is wrong)")
     for key in ("len", "hs", "past_end", "bonds", "max_step"):
         if ref[key] != got[key]:
             ctx.violate("attribute:" + key,
